@@ -21,6 +21,12 @@ HARMLESS_OTHER = [
     ("rename-local:_interpolate_return", "doctrans/parser_utils.py", [("return_ast", "final_return")], "C07"),
     ("reorder-independent:emit.class_", "doctrans/emit.py",
      [("    indent_level = 1\n    sep = indent_level * tab\n    return ClassDef(", "    indent_level = 1\n    sep = tab * indent_level\n    return ClassDef(")], "C16"),
+    ("rename-local:google-_parse", "doctrans/docstring_parsers.py", [("offset = next(idx for", "colon_at = next(idx for"), ("scan[0][:offset]", "scan[0][:colon_at]"),
+                                                                  ("scan[0][offset + 1 :]", "scan[0][colon_at + 1 :]")], "C01"),
+    ("rename-local:to_docstring", "doctrans/emitter_utils.py", [("            doc, default = extract_default(\n                _param[\"doc\"], emit_default_doc=emit_default_doc\n            )\n"
+                                                                 "            if default is not None:\n                _param[\"default\"] = default\n",
+                                                                 "            doc, announced = extract_default(\n                _param[\"doc\"], emit_default_doc=emit_default_doc\n            )\n"
+                                                                 "            if announced is not None:\n                _param[\"default\"] = announced\n")], "C02"),
     ("tuple-for-frozenset:annotate_ancestry", "doctrans/ast_utils.py", [('in frozenset(("self", "cls"))\n                            else 0,', 'in ("self", "cls")\n                            else 0,')], "C15"),
 ]
 HARMLESS = [
